@@ -12,7 +12,7 @@ Inductive mode := Deferred | Immediate.
 Inductive op := ORead | OWrite.
 Record prog := { pmode : mode; pops : list op }.       (* BEGIN <mode>; ops; COMMIT *)
 
-Inductive cst := Idle | Def0 | Reading (v : nat) | Writing.
+Inductive cst := Idle | Def0 | Reading (v : nat) | Writing (dirty : bool).   (* dirty: the transaction has written a frame *)
 Record conn := { st : cst; begun : bool; rest : list op; finished : bool }.
 Record db := { ver : nat; writer : option nat; conns : list conn }.
 
@@ -40,7 +40,7 @@ Definition step (ps : list prog) (i : nat) (d : db) : outcome :=
         match pmode p with
         | Immediate =>
             match writer d with
-            | None => Ok (upd d i {| st := Writing; begun := true; rest := rest c; finished := false |} (ver d) (Some i))
+            | None => Ok (upd d i {| st := Writing false; begun := true; rest := rest c; finished := false |} (ver d) (Some i))
             | Some _ => Blocked d
             end
         | Deferred => Ok (upd d i {| st := Def0; begun := true; rest := rest c; finished := false |} (ver d) (writer d))
@@ -49,7 +49,10 @@ Definition step (ps : list prog) (i : nat) (d : db) : outcome :=
         match rest c with
         | [] =>   (* COMMIT *)
             match st c with
-            | Writing => Ok (upd d i {| st := Idle; begun := true; rest := []; finished := true |} (S (ver d)) None)
+            | Writing dirty =>
+                (* a commit that wrote nothing adds no frame: snapshots taken before it stay current *)
+                Ok (upd d i {| st := Idle; begun := true; rest := []; finished := true |}
+                        (if dirty then S (ver d) else ver d) None)
             | _ => Ok (upd d i {| st := Idle; begun := true; rest := []; finished := true |} (ver d) (writer d))
             end
         | ORead :: r =>
@@ -59,16 +62,16 @@ Definition step (ps : list prog) (i : nat) (d : db) : outcome :=
             end
         | OWrite :: r =>
             match st c with
-            | Writing => Ok (upd d i {| st := Writing; begun := true; rest := r; finished := false |} (ver d) (writer d))
+            | Writing _ => Ok (upd d i {| st := Writing true; begun := true; rest := r; finished := false |} (ver d) (writer d))
             | Def0 =>
                 match writer d with
-                | None => Ok (upd d i {| st := Writing; begun := true; rest := r; finished := false |} (ver d) (Some i))
+                | None => Ok (upd d i {| st := Writing true; begun := true; rest := r; finished := false |} (ver d) (Some i))
                 | Some _ => Blocked d
                 end
             | Reading v =>
                 match writer d with
                 | None => if Nat.eqb v (ver d)
-                          then Ok (upd d i {| st := Writing; begun := true; rest := r; finished := false |} (ver d) (Some i))
+                          then Ok (upd d i {| st := Writing true; begun := true; rest := r; finished := false |} (ver d) (Some i))
                           else Busy
                 | Some _ => Busy
                 end
@@ -96,3 +99,16 @@ Definition war_free (l : list op) : bool :=
   match l with [] => true | ORead :: r => no_write r | OWrite :: r => true end.
 Definition prog_ok (p : prog) : bool :=
   match pmode p with Immediate => true | Deferred => war_free (pops p) end.
+
+(* entry points for the extracted driver (unique names), and what the harness
+   does with a connection that got SQLITE_BUSY: it rolls back and stops *)
+Definition wal_step := step.
+Definition wal_init := init.
+Definition wal_abort (i : nat) (d : db) : db :=
+  match nth_error (conns d) i with
+  | Some _ =>
+      {| ver := ver d;
+         writer := match writer d with Some j => if Nat.eqb j i then None else Some j | None => None end;
+         conns := set_nth (conns d) i {| st := Idle; begun := true; rest := []; finished := true |} |}
+  | None => d
+  end.
